@@ -117,6 +117,52 @@ def facts_for(cfg="default", repo=None, verbose=False, target_dir=None, out_root
         lock.close()
 
 
+def dep_facts(crate="lsm_tree", repo=None, verbose=False):
+    """fact file of a dependency crate (thorough tier only): the whole build goes through the driver as RUSTC_WRAPPER"""
+    repo = repo or REPO
+    build_driver(verbose)
+    h = hashlib.sha256()
+    with open(os.path.join(repo, "Cargo.lock"), "rb") as fh:
+        h.update(fh.read())
+    with open(os.path.join(DRIVER_DIR, "src", "main.rs"), "rb") as fh:
+        h.update(fh.read())
+    out_dir = os.path.join(CACHE, "facts-deps", h.hexdigest()[:16])
+    out = os.path.join(out_dir, crate + ".json")
+    if os.path.exists(out):
+        return out
+    target = os.path.join(CACHE, "target-deps")
+    os.makedirs(out_dir, exist_ok=True)
+    os.makedirs(target, exist_ok=True)
+    lock = open(os.path.join(CACHE, "lock-deps"), "w")
+    fcntl.flock(lock, fcntl.LOCK_EX)
+    try:
+        if os.path.exists(out):
+            return out
+        for fp in glob.glob(os.path.join(target, "debug", ".fingerprint", crate.replace("_", "-") + "-*")):
+            shutil.rmtree(fp, ignore_errors=True)
+        env = dict(os.environ)
+        env.update({
+            "LD_LIBRARY_PATH": sysroot() + "/lib:" + env.get("LD_LIBRARY_PATH", ""),
+            "RUSTFLAGS": "-Zmir-opt-level=0 -Awarnings",
+            "RUSTC_WRAPPER": DRIVER,
+            "VERIF_FACTS_DIR": out_dir,
+            "VERIF_CRATES": crate,
+            "CARGO_TARGET_DIR": target,
+            "CARGO_NET_OFFLINE": "true",
+            "CARGO_INCREMENTAL": "0",
+        })
+        env.pop("RUSTC_WORKSPACE_WRAPPER", None)
+        r = subprocess.run(["cargo", "+nightly", "check", "--offline", "--lib"], cwd=repo, env=env,
+                           stdout=subprocess.PIPE, stderr=subprocess.STDOUT, text=True)
+        if r.returncode != 0 or not os.path.exists(out):
+            sys.stderr.write(r.stdout[-4000:])
+            return None
+        return out
+    finally:
+        fcntl.flock(lock, fcntl.LOCK_UN)
+        lock.close()
+
+
 if __name__ == "__main__":
     cfgs = sys.argv[1:] or ["default"]
     for c in cfgs:
